@@ -429,9 +429,21 @@ GLevel(s, d) ==
        IN <<GValueAt(s, p) * (n - p) + (GValueAt(s, n) - GValueAt(s, p)) * (d - p), n - p>>
 C20_Series == (AfterGw /\ Cfg.gwfrom = 2 /\ ix.gen > 0 /\ Has(Gen, "gws")) =>
    LET lv == GLevel(Gen.gws, Ev.zeit) IN Abs((Ev.grw \div 100) * lv[2] - lv[1] * 100) <= lv[2] + 1
-C20_Sinus == (AfterGw /\ Cfg.gwfrom = 0) =>
-   /\ Abs(2 * (Cfg.gw - Ev.grw) - (Cfg.grlo - Cfg.grhi) * Sin6[((Ev.doy + Cfg.gwphase) % 360) + 1]) <= (Cfg.grlo - Cfg.grhi) + 6   \* table entries are rounded at 1e-6
-   /\ Ev.grw >= Cfg.grhi * 1000000 - 2 /\ Ev.grw <= Cfg.grlo * 1000000 + 2
+\* polygon-file route (header: Gen.gwHigh / Gen.gwLow in dm and Gen.gwPhase as the project was configured): the level never
+\* leaves the interval of the two given levels ...
+HasGwRange == ix.gen > 0 /\ Has(Gen, "gwHigh")
+C20_SinusBounds == (AfterGw /\ Cfg.gwfrom = 0 /\ HasGwRange) =>
+   Ev.grw >= Gen.gwHigh * 1000000 - 2 /\ Ev.grw <= Gen.gwLow * 1000000 + 2
+\* ... and oscillates around their mean: a run of a year or more has seen it on both sides of the mean (the levels seen
+\* so far are the keys of gwseen).  How the curve looks in between (the code: a sine over a 360-day year) is not stated by
+\* the property: the formula is compared as MODEL-DRIFT only (D20_SineFormula); the phase shift is judged on pairs of runs
+\* (Trace_GwPhase).
+C20_AroundMean == (l > 1 /\ Ev.ev = "run.end" /\ Ev.ok /\ ix.cfg > 0 /\ Cfg.gwfrom = 0 /\ HasGwRange /\ Gen.gwLow > Gen.gwHigh /\ Cfg.ende - Cfg.begin >= 366) =>
+   /\ \E i \in 1..Len(gwseen) : 2 * gwseen[i][1] > (Gen.gwHigh + Gen.gwLow) * 1000000
+   /\ \E i \in 1..Len(gwseen) : 2 * gwseen[i][1] < (Gen.gwHigh + Gen.gwLow) * 1000000
+C20_Sinus == C20_SinusBounds /\ C20_AroundMean
+D20_SineFormula == (AfterGw /\ Cfg.gwfrom = 0) =>
+   Abs(2 * (Cfg.gw - Ev.grw) - (Cfg.grlo - Cfg.grhi) * Sin6[((Ev.doy + Cfg.gwphase) % 360) + 1]) <= (Cfg.grlo - Cfg.grhi) + 6   \* table entries are rounded at 1e-6
 C20_Constant == (AfterGw /\ Cfg.gwfrom = 1) => Ev.grw = Cfg.gw
 C20_All == C20_Series /\ C20_Sinus /\ C20_Constant
 
